@@ -212,7 +212,19 @@ PROPS = {
         level_note="SIGKILL keeps the OS page cache, so power-loss durability (synchronous=NORMAL vs FULL) cannot be distinguished here.",
         assumptions=COMMON_ASSUME + ["an acknowledgement line written to the pipe before the kill is read by the parent after the child's death", "the OS keeps written pages of a killed process (no power loss)"],
         tests=[
-            dict(name="TestKillReopen", quick=60, thorough=600, shards_thorough=16, shrinktime="30s"),
+            dict(name="TestKillReopen", quick=150, thorough=600, shards_thorough=16, shrinktime="30s"),
+        ],
+    ),
+    "C03": dict(
+        pkg="c03", level="exploration",
+        technique="fuzzing of generated concurrent API programs (rapid) under the Go race detector with per-case attribution of reports, plus a hang watchdog",
+        level_text="Random search over concurrent mixes of the whole public surface (bus, persistence, upcasts, bundled stores, materializer) with re-entrant calls from handlers, filters and hooks, run free on real goroutines under the race detector with barrier start, drawn GOMAXPROCS and yield noise; a race report, an API panic or a reproducible 60 s hang is a violation. The detector only sees interleavings that execute: absence of races is never shown.",
+        level_note="Excluded by construction: configuration setters, Wait/Shutdown from inside handlers, nested scripts in Sequential handlers (the documented self-delivery and its transitive forms). Races whose report has no jilio/ebu frame are recorded, not reported.",
+        crash_is_violation=True,
+        assumptions=COMMON_ASSUME + ["a race report appended to the detector's log file while a case runs belongs to that case (cases run one at a time)"],
+        tests=[
+            dict(name="TestPrograms", quick=300, thorough=4000, shards_thorough=12, race=True, shrinktime="20s",
+                 gorace="log_path={sdir}/race suppress_equal_stacks=0 suppress_equal_addresses=0", timeout_quick=1200),
         ],
     ),
 }
